@@ -188,6 +188,8 @@ impl<T: UniMerge + UniIngest> Doubling<T> {
     }
     fn pair(&self, w1: &[f64], w2: &[f64], only: Option<(usize, Option<usize>, bool)>) -> (u64, Vec<(Violation, Value)>) {
         let mut out = Vec::new();
+        // one artefact per signature per pair of chains (a broken merge violates everywhere)
+        let mut sigs: std::collections::HashSet<String> = std::collections::HashSet::new();
         let mut merges = 0u64;
         let path = |i: usize, j: Option<usize>, rev: bool| json!([{"a": {"base": wjson(w1), "doublings": i}}, {"b": j.map(|j| json!({"base": wjson(w2), "doublings": j}))}, {"b_merge_a": rev}]);
         let (ca, cb) = match (chain::<T>(w1, self.doublings), chain::<T>(w2, self.doublings)) {
@@ -200,7 +202,9 @@ impl<T: UniMerge + UniIngest> Doubling<T> {
             merges += 1;
             if only.map(|o| o == (i, None, false)).unwrap_or(true) {
                 for v in self.judge(w1, i, None, a) {
-                    out.push((v, path(i, None, false)));
+                    if sigs.insert(v.sig.clone()) {
+                        out.push((v, path(i, None, false)));
+                    }
                 }
             }
         }
@@ -220,7 +224,9 @@ impl<T: UniMerge + UniIngest> Doubling<T> {
                         Err(m) => out.push((Violation { sig: format!("{}.merge:panic:large-n", T::NAME), detail: format!("merge of 2^{i} x {w1:?} with 2^{j} x {w2:?} panicked: {m}") }, path(i, Some(j), rev))),
                         Ok(e) => {
                             for v in self.judge(w1, i, Some((w2, j)), &e) {
-                                out.push((v, path(i, Some(j), rev)));
+                                if sigs.insert(v.sig.clone()) {
+                                    out.push((v, path(i, Some(j), rev)));
+                                }
                             }
                         }
                     }
@@ -460,12 +466,15 @@ impl<T: Chunky<Item = (f64, f64)>> DoublingPairs<T> {
             (Err(m), _) | (_, Err(m)) => return (0, vec![(Violation { sig: format!("{}.merge:panic:large-n", T::NAME), detail: format!("self-merge chain panicked: {m}") }, path(0, None, false))]),
         };
         let mut out = Vec::new();
+        let mut sigs: std::collections::HashSet<String> = std::collections::HashSet::new();
         let mut merges = 0u64;
         for (i, a) in ca.iter().enumerate() {
             merges += 1;
             if only.map(|o| o == (i, None, false)).unwrap_or(true) {
                 for v in (self.judge)(&Self::rows(w1, i, None), &a.observe_()) {
-                    out.push((v, path(i, None, false)));
+                    if sigs.insert(v.sig.clone()) {
+                        out.push((v, path(i, None, false)));
+                    }
                 }
             }
         }
@@ -485,7 +494,9 @@ impl<T: Chunky<Item = (f64, f64)>> DoublingPairs<T> {
                         Err(m) => out.push((Violation { sig: format!("{}.merge:panic:large-n", T::NAME), detail: format!("merge of 2^{i} x {w1:?} with 2^{j} x {w2:?} panicked: {m}") }, path(i, Some(j), rev))),
                         Ok(e) => {
                             for v in (self.judge)(&Self::rows(w1, i, Some((w2, j))), &e.observe_()) {
-                                out.push((v, path(i, Some(j), rev)));
+                                if sigs.insert(v.sig.clone()) {
+                                    out.push((v, path(i, Some(j), rev)));
+                                }
                             }
                         }
                     }
